@@ -283,7 +283,64 @@ func matrixPrograms() []matrixProg {
 	out = append(out, matrixProg{name: "write-through", p: mxWriteThrough(), wasmOK: true})
 	out = append(out, matrixProg{name: "const-flow", p: mxConstFlow(), wasmOK: true})
 	out = append(out, matrixProg{name: "ranges", p: mxRanges(), wasmOK: true})
+	out = append(out, matrixProg{name: "stale-constants", p: mxStaleConstants(), wasmOK: true})
 	return out
+}
+
+// mxStaleConstants: locals with a constant initialiser that are tested (if / else-if / while / match
+// / as an operand) and LATER reassigned to a different constant on the straight-line path, in a
+// branch, or in a loop — and tested again. A decision taken from the value a variable has at the
+// end of the function (or at its declaration) instead of at the test shows up as a wrong line.
+func mxStaleConstants() *gen.Program {
+	I32 := gen.I32
+	p := &gen.Program{Features: map[string]bool{}}
+	var m []gen.Stmt
+	n := 0
+	pr := func(v int64) gen.Stmt { return &gen.Print{X: mxLit(I32, v)} }
+	for _, t := range []*gen.Type{gen.I32, gen.I64, gen.U8, gen.TBool} {
+		for variant := 0; variant < 4; variant++ {
+			n++
+			name := fmt.Sprintf("lv%d", n)
+			v := &gen.Var{Name: name, T: t}
+			one, two := mxLit(t, 1), mxLit(t, 2)
+			var isOne func() gen.Expr
+			if t.K == gen.KBool {
+				one, two = &gen.Lit{T: gen.TBool, I: 1}, &gen.Lit{T: gen.TBool, I: 0}
+				isOne = func() gen.Expr { return v }
+			} else {
+				isOne = func() gen.Expr { return &gen.Bin{Op: "==", L: v, R: mxLit(t, 1), T: gen.TBool} }
+			}
+			test := func(tag int64) gen.Stmt {
+				return &gen.If{Cond: isOne(), Then: []gen.Stmt{pr(tag*10 + 1)}, Else: []gen.Stmt{pr(tag*10 + 2)}}
+			}
+			m = append(m, &gen.Let{Name: name, T: t, Init: one, Annot: variant%2 == 0 || (t != gen.I32 && t.K != gen.KBool)})
+			m = append(m, test(int64(n)*10+1))
+			switch variant {
+			case 0: // straight-line reassignment
+				m = append(m, &gen.Assign{LHS: v, Op: "=", RHS: two})
+			case 1: // reassignment inside a taken branch
+				m = append(m, &gen.If{Cond: &gen.Lit{T: gen.TBool, I: 1}, Then: []gen.Stmt{&gen.Assign{LHS: v, Op: "=", RHS: two}}})
+			case 2: // reassignment inside a loop that runs once
+				c := fmt.Sprintf("it%d", n)
+				cv := &gen.Var{Name: c, T: I32}
+				m = append(m, &gen.Let{Name: c, T: I32, Init: mxLit(I32, 0), Annot: true},
+					&gen.While{Cond: &gen.Bin{Op: "<", L: cv, R: mxLit(I32, 1), T: gen.TBool}, Body: []gen.Stmt{&gen.Assign{LHS: v, Op: "=", RHS: two}, &gen.Assign{LHS: cv, Op: "=", RHS: &gen.Bin{Op: "+", L: cv, R: mxLit(I32, 1), T: I32}}}})
+			default: // two reassignments: to the other value and back
+				m = append(m, &gen.Assign{LHS: v, Op: "=", RHS: two}, test(int64(n)*10+5), &gen.Assign{LHS: v, Op: "=", RHS: one})
+			}
+			m = append(m, test(int64(n)*10+2))
+			if t.K != gen.KBool {
+				// the same variable as a match subject, a loop bound and an operand, before a further change
+				m = append(m, &gen.Match{Subj: v, HasDef: true, Arms: []gen.MatchArm{{Pat: mxLit(t, 1), Body: []gen.Stmt{pr(int64(n)*100 + 31)}}, {Pat: mxLit(t, 2), Body: []gen.Stmt{pr(int64(n)*100 + 32)}}}, Default: []gen.Stmt{pr(int64(n)*100 + 33)}})
+				m = append(m, mxPrintLet(fmt.Sprintf("e%d", n), t, &gen.Bin{Op: "*", L: v, R: mxLit(t, 7), T: t})...)
+				m = append(m, &gen.Assign{LHS: v, Op: "=", RHS: mxLit(t, 5)})
+				m = append(m, mxPrintLet(fmt.Sprintf("g%d", n), t, &gen.Bin{Op: "*", L: v, R: mxLit(t, 7), T: t})...)
+				m = append(m, &gen.Match{Subj: v, HasDef: true, Arms: []gen.MatchArm{{Pat: mxLit(t, 1), Body: []gen.Stmt{pr(int64(n)*100 + 41)}}, {Pat: mxLit(t, 5), Body: []gen.Stmt{pr(int64(n)*100 + 45)}}}, Default: []gen.Stmt{pr(int64(n)*100 + 43)}})
+			}
+		}
+	}
+	p.Main = m
+	return p
 }
 
 // mxRanges: stepped and plain range loops `for v in a..b[:s]` / `a..=b[:s]` over six integer
